@@ -3,9 +3,12 @@
    (Heap/More.v), tied to libadm by the differential run of the check (same documents, routes compared as lists of
    element handles in order; equality and hashes of equal routes are checked on libadm's route objects).
    The theorems hold for every state - any graph, shared sub-graphs and empty branches included - whenever the
-   traversal returns (fuel exhaustion, i.e. a reference cycle, is excluded by the statement; acyclicity of every
-   reachable state is C06). *)
-From Adm Require Import Heap.Exec Heap.More Heap.Frame Heap.Routes.
+   traversal returns (fuel exhaustion, i.e. a reference cycle, is excluded by the statement); that it does return on
+   every state reached by the modelled calls, copies included, is C18_returns_on_every_reached_document
+   (Heap/Terminate.v: the guarded graphs stay acyclic, a cycle of tracer steps would be a cycle of object or
+   pack-format references, and on a graph without cycles a depth-first chain never repeats an element). *)
+From Adm Require Import Heap.Exec Heap.More gen.PlansGen Heap.PlanChecks Heap.Frame Heap.Routes Heap.WF Heap.Acyclic Heap.WFExt
+  Heap.Joint Heap.Terminate.
 
 (* soundness and completeness: a route is returned if and only if it is a path of the reference graph from the
    start element to a channel format, with the elements in path order *)
@@ -46,6 +49,27 @@ Proof. exact trace_terminates. Qed.
 Print Assumptions C18_terminates_on_ranked_graphs.
 
 (* a diamond: programme -> content -> two objects sharing one pack -> nested pack -> channel: two routes *)
+(* the traversal returns on every reached document, whatever element it is started from *)
+Theorem C18_returns_on_every_reached_document : forall ops s p, xrun_succ gen_plans ops empty_state = Some s ->
+  exists rs, trace (fuel_of s) s p [] = Some rs.
+Proof.
+  exact (fun ops s p H =>
+    match acy_invariant gen_plans gen_add_plan_complete gen_remove_plan_complete gen_plans_typed eq_refl
+            ops empty_state s empty_G empty_Acy H with
+    | conj (conj (conj _ R) _) A =>
+        match trace (fuel_of s) s p [] as o return o <> None -> exists rs, o = Some rs with
+        | Some rs => fun _ => ex_intro _ rs eq_refl
+        | None => fun N => False_ind _ (N eq_refl)
+        end (trace_terminates_on_acyclic s p R (A ObjObj eq_refl) (A PackPack eq_refl))
+    end).
+Qed.
+Print Assumptions C18_returns_on_every_reached_document.
+
+Theorem C18_returns_on_acyclic_typed_graphs : forall s p, RefsOk s -> acyclic s ObjObj -> acyclic s PackPack ->
+  trace (fuel_of s) s p [] <> None.
+Proof. exact trace_terminates_on_acyclic. Qed.
+Print Assumptions C18_returns_on_acyclic_typed_graphs.
+
 Example C18_diamond :
   let e k refs := mkElem k None (mkId 0 0 0) 0 refs (fun _ => []) false None None false 0 in
   let none := fun _ : refkind => @nil positive in
